@@ -85,11 +85,11 @@ class OneGeneric(tuple):
 
     def __new__(cls, child, index):
         o = tuple.__new__(cls, (child,))
-        o.index = index
+        o.vf_index = index
         return o
 
     def __vf_enumerate__(self, *a):
-        return iter([(self.index, self[0])])
+        return iter([(self.vf_index, self[0])])
 
     def __vf_len__(self):
         raise EngineUnsupported("len of a generic operand window")
@@ -288,7 +288,8 @@ def paths_of(n, p=()):
     for i, c in enumerate(n.children):
         yield from paths_of(c, p + (i,))
 big = T.OrOperation(*[T.Word('w%d' % i) for i in range(130)])
-trees = [parser.parse(q) for q in ['a', 'a b', 'a AND (b OR c) AND NOT d', 'f:(x y) OR -z^2', '(a b) (c d) e', '"p" [1 TO 2] a~ OR b']]
+trees = [parser.parse(q) for q in ['a', 'a b', 'a AND (b OR c) AND NOT d', 'f:(x y) OR -z^2', '(a b) (c d) e', '"p" [1 TO 2] a~ OR b',
+                                   '(x OR y) AND (x OR y)', 'x AND x AND (x OR x)', '(a OR b)', 'NOT (a AND b)', 'title:(foo bar)', '(a b)^2', '+(a b c)']]
 trees += [big, T.AndOperation(T.OrOperation(*[T.Word('x%d' % i) for i in range(60)]), T.UnknownOperation(*[T.Word('y%d' % i) for i in range(60)])), T.Group(T.AndOperation(T.Word('solo')))]
 for t in trees:
     m = auto_name(t)
